@@ -113,7 +113,9 @@ impl Out {
     }
     pub fn monitor_fail(&mut self, key: &str, what: &str, replay: serde_json::Value) {
         self.count(&format!("monitor_fail:{}", key));
-        if self.monitor_failures.len() < 200 {
+        // keep the first three examples of every key (never let a frequent key crowd out a rare one)
+        let seen = self.monitor_failures.iter().filter(|m| m["key"] == key).count();
+        if seen < 3 && self.monitor_failures.len() < 2000 {
             self.monitor_failures
                 .push(serde_json::json!({"key": key, "what": what, "replay": replay}));
         }
